@@ -312,6 +312,7 @@ pub struct Interp<'a> {
     lookups_since_clear: u64,
     /// a lookup ran concurrently with a clear(): on which side of the counter reset it fell is not known
     lookups_uncertain: bool,
+    policy_diverged: bool,
     interposed_then_clear: bool,
     interposed_then_lookup: bool,
     all_deadlines: Vec<i64>,
@@ -415,6 +416,7 @@ impl<'a> Interp<'a> {
             lost_once: BTreeSet::new(),
             lookups_since_clear: 0,
             lookups_uncertain: false,
+            policy_diverged: false,
             interposed_then_clear: false,
             interposed_then_lookup: false,
             all_deadlines: Vec::new(),
@@ -945,7 +947,7 @@ impl<'a> Interp<'a> {
         }
         // policy
         let pm: BTreeMap<u64, i64> = snap.costs.iter().copied().collect();
-        if pm != self.m.policy {
+        if pm != self.m.policy && !self.policy_diverged {
             let mut msgs = Vec::new();
             for (k, c) in self.m.policy.iter() {
                 match pm.get(k) {
@@ -962,8 +964,11 @@ impl<'a> Interp<'a> {
             for (p, props, m) in msgs {
                 self.fail(p, props, m);
             }
-            self.desync("policy differs from model");
-            return;
+            // The model keeps its own view of the charges and goes on: what follows from a wrong
+            // charge (a newcomer refused although there is room, a victim that frees nothing) is
+            // then reported under the properties it concerns. Nothing is reached here on a
+            // tree whose charges are right.
+            self.policy_diverged = true;
         }
         // queues
         let (pi, _pc, pp) = self.sut.pending();
